@@ -19,6 +19,7 @@ func TestMain(m *testing.M) { vk.Main(m, "C17") }
 
 type Case struct {
 	BigN    int      `json:"big_n,omitempty"` // > 0: a very large generated key set (see bigKeys) instead of Keys
+	Spec    *Spec    `json:"spec,omitempty"`  // a key list generated from a few parameters (see spec_test.go) instead of Keys
 	Keys    []vk.Hex `json:"keys"`
 	MaxSize int32    `json:"max_size"`
 	Class   string   `json:"class,omitempty"`
@@ -26,9 +27,12 @@ type Case struct {
 
 var checker = &vk.Checker[Case]{
 	ID: "C17",
-	Rule: "strictly ascending key lists from a random prefix tree (1..60 keys, thorough up to 2000): deep nested prefixes, a key equal to the common prefix of its successors, single key, keys differing in byte 0, NUL and >= 0x80 bytes, empty key; maxSize in {1,2,3,...,n-1,n,n+3}. " +
+	Rule: "strictly ascending key lists (a) from a random prefix tree (1..60 keys, thorough up to 2000): deep nested prefixes, a key equal to the common prefix of its successors, single key, keys differing in byte 0, NUL and >= 0x80 bytes, empty key; " +
+		"(b) from a parameterised prefix tree (Spec: the case carries the parameters, the list is a pure function of them): nesting chains k, kk, kkk, ... and combs 2..900 levels deep (thorough 3000), 1..40 keys sharing 1..70 000 leading bytes (thorough 2^20), lists of 16..12 000 keys (thorough 150 000) of skewed / balanced / flat shape sharing 0..600 leading bytes; every size is drawn log-uniformly (each octave equally likely, octave ends 2^k-1, 2^k, 2^k+1 favoured). " +
+		"maxSize in {1,2,3,n-1,n,n+1..2n+3,2^31-1-d, log-uniform and uniform in 1..n}. The same list reaches the library as fresh exact strings, in a reused argument slice with canaries in its spare capacity, as substrings at odd addresses between foreign bytes, or as adjacent substrings of one packed buffer (a function of the case). " +
 		"Validity predicate (many outputs may be right): len(B)==len(L)+1, B[0]==0, B strictly increasing, B[k]==n, every shard <= maxSize keys, L[j] == byte length of the longest common prefix of the shard computed naively over all its keys (key length for a single key), shard prefixes strictly ascending. Nothing else about where the cuts are is demanded. " +
-		"Grid: all subsets of size 1..6 of a 14-key pool x maxSize 1..7; two very large generated key sets (70 001 and 2^18+7 keys) x maxSize {1,50,5000}. Non-trivial: n > maxSize and adjacent keys share common prefixes of >= 2 distinct byte lengths (nested splitting is needed). Distinct by hash of the case.",
+		"Grid: all subsets of size 1..6 of a 14-key pool x maxSize 1..7; full fan-out lists; very large generated key sets (70 001 and 2^18+7 keys) x maxSize {1,50,5000,n,2^31-4}; sweeps over nesting depth (2..1025, thorough 4097), common-prefix length (7..65 537, thorough 2^20+1) and number of keys (15..~10 000, thorough 131 071) at 2^k-1, 2^k, 2^k+1 and two more sizes per octave, the one-shard and sqrt(n) cases of the key-count sweep under every GOMAXPROCS setting of the second process; 70 001 keys x maxSize around 2^15 and 2^16. " +
+		"Non-trivial: n > maxSize and adjacent keys share common prefixes of >= 2 distinct byte lengths (nested splitting is needed). Distinct by hash of the case.",
 	Check:    check,
 	Classify: classify,
 	Risky:    func(Case) bool { return true }, // the recursive split can overflow the stack: keep the running case on disk
@@ -63,31 +67,113 @@ func (c Case) keyStrings() []string {
 	if c.BigN > 0 {
 		return bigKeys(c.BigN)
 	}
+	if c.Spec != nil {
+		return specKeys(*c.Spec)
+	}
 	return vk.Strings(c.Keys)
 }
 
 var scratch vk.Scratch
 
+// brief prints a key list, or its ends when it is long.
+func brief(keys []string) string {
+	t := 0
+	for _, k := range keys {
+		t += len(k)
+	}
+	if len(keys) <= 12 && t <= 1200 {
+		return fmt.Sprintf("%x", keys)
+	}
+	short := func(k string) string {
+		if len(k) > 40 {
+			return fmt.Sprintf("%x..(%d bytes)..%x", k[:12], len(k), k[len(k)-12:])
+		}
+		return fmt.Sprintf("%x", k)
+	}
+	if len(keys) <= 3 {
+		out := "["
+		for i, k := range keys {
+			if i > 0 {
+				out += " "
+			}
+			out += short(k)
+		}
+		return out + "]"
+	}
+	return fmt.Sprintf("[%d keys, %d bytes: %s %s .. %s]", len(keys), t, short(keys[0]), short(keys[1]), short(keys[len(keys)-1]))
+}
+
+// packed returns keys equal to orig whose bytes lie back to back in ONE buffer (what splitting a file
+// into keys yields): most keys start at an odd address and are followed by the bytes of the next key.
+func packed(orig []string) []string {
+	t := 3
+	for _, k := range orig {
+		t += len(k)
+	}
+	buf := make([]byte, 0, t+5)
+	buf = append(buf, "\xa5\x5a\xc3"...)
+	for _, k := range orig {
+		buf = append(buf, k...)
+	}
+	buf = append(buf, "\xee\xdd\xcc\xbb\xaa"...)
+	all := string(buf)
+	out := make([]string, len(orig))
+	at := 3
+	for i, k := range orig {
+		out[i] = all[at : at+len(k)]
+		at += len(k)
+	}
+	return out
+}
+
 func check(c Case) *vk.Failure {
-	keys := c.keyStrings()
 	orig := c.keyStrings()
-	reused := c.BigN == 0 && scratch.Reuse(vk.SumStrings(orig)+uint64(c.MaxSize))
-	if reused {
-		keys = scratch.Strings(orig) // every other case: the same backing array as earlier calls, other keys
+	// How the (same) key list reaches the library is a function of the case: fresh exact copies, the
+	// reused argument buffer (same backing array as earlier calls, canaries in the spare capacity),
+	// substrings at odd addresses with foreign bytes around them, or substrings of one packed buffer.
+	var sum uint64
+	if c.BigN > 0 || c.Spec != nil {
+		sum = uint64(c.BigN)
+		if c.Spec != nil {
+			sum = vk.Mix(c.Spec.Seed^uint64(c.Spec.N)<<32^uint64(c.Spec.Root)<<8^uint64(c.Spec.Shape)) + uint64(c.Spec.Ext)
+		}
+	} else {
+		sum = vk.SumStrings(orig)
+	}
+	sum += uint64(c.MaxSize)
+	reused := c.BigN == 0 && scratch.Reuse(sum)
+	var keys []string
+	switch how := vk.Mix(sum^0x17c17) >> 8 & 3; {
+	case reused:
+		keys = scratch.Strings(orig)
+	case how == 0:
+		keys = vk.ShapeStrings(orig, sum)
+	case how == 1:
+		keys = packed(orig)
+	case c.BigN == 0 && c.Spec == nil:
+		keys = vk.Strings(c.Keys) // fresh heap strings of exactly the key's size
+	default:
+		keys = append(make([]string, 0, len(orig)), orig...)
 	}
 	n := len(keys)
-	var L, B []int32
-	if f := vk.TryF(func() string {
-		if c.BigN > 0 {
-			return fmt.Sprintf("ShardByPrefix(%d generated keys, %d)", n, c.MaxSize)
+	generated := c.BigN > 0 || c.Spec != nil
+	what := func() string {
+		switch {
+		case c.BigN > 0:
+			return fmt.Sprintf("%d generated keys", n)
+		case c.Spec != nil:
+			return fmt.Sprintf("keys of spec %+v = %s", *c.Spec, brief(orig))
 		}
-		return fmt.Sprintf("ShardByPrefix(%d keys %x, %d)", n, keys, c.MaxSize)
-	}, func() { L, B = sigbits.ShardByPrefix(keys, c.MaxSize) }); f != nil {
+		return fmt.Sprintf("%d keys %x", n, orig)
+	}
+	var L, B []int32
+	if f := vk.TryF(func() string { return fmt.Sprintf("ShardByPrefix(%s, %d)", what(), c.MaxSize) },
+		func() { L, B = sigbits.ShardByPrefix(keys, c.MaxSize) }); f != nil {
 		return f
 	}
 	desc := func() string {
-		if c.BigN > 0 {
-			return fmt.Sprintf("ShardByPrefix(%d generated keys, maxSize=%d) -> %d shards", c.BigN, c.MaxSize, len(L))
+		if generated {
+			return fmt.Sprintf("ShardByPrefix(%s, maxSize=%d) -> %d shards", what(), c.MaxSize, len(L))
 		}
 		return fmt.Sprintf("ShardByPrefix(keys=%x, maxSize=%d) = L%v B%v", orig, c.MaxSize, L, B)
 	}
@@ -116,11 +202,11 @@ func check(c Case) *vk.Failure {
 		shard := orig[B[j]:B[j+1]]
 		want := lcpBytes(shard)
 		if int(L[j]) != want {
-			return vk.Failf("prefix-length", "%s: L[%d] = %d but the longest common prefix of shard %x has %d bytes", desc(), j, L[j], shard, want)
+			return vk.Failf("prefix-length", "%s: L[%d] = %d but the longest common prefix of shard %d = keys[%d:%d] = %s has %d bytes", desc(), j, L[j], j, B[j], B[j+1], brief(shard), want)
 		}
 		p := shard[0][:want]
 		if j > 0 && !(prev < p) {
-			return vk.Failf("prefix-order", "%s: shard prefixes %x, %x (shards %d,%d) are not strictly ascending", desc(), prev, p, j-1, j)
+			return vk.Failf("prefix-order", "%s: shard prefixes %s, %s (shards %d,%d) are not strictly ascending", desc(), brief([]string{prev}), brief([]string{p}), j-1, j)
 		}
 		prev = p
 	}
@@ -141,11 +227,20 @@ func classify(c Case) (bool, []string) {
 	if c.BigN > 0 {
 		return true, []string{"class:very-large-key-set"}
 	}
-	keys := vk.Strings(c.Keys)
+	keys := c.keyStrings()
 	n := len(keys)
 	labels := []string{}
 	if c.Class != "" {
 		labels = append(labels, "class:"+c.Class)
+	}
+	if c.Spec != nil {
+		labels = append(labels, "spec-shape:"+shapeNames[c.Spec.norm().Shape], "spec-keys:"+octave(n))
+		if c.Spec.Root >= 8 {
+			labels = append(labels, "spec-root-bytes:"+octave(c.Spec.Root))
+		}
+		if int(c.MaxSize) >= n && n >= 2 && keys[0] != "" && keys[0][0] == keys[n-1][0] {
+			labels = append(labels, "one-shard-with-common-prefix")
+		}
 	}
 	switch {
 	case c.MaxSize == 1:
@@ -161,17 +256,38 @@ func classify(c Case) (bool, []string) {
 	// decided from the input alone (the classifier never calls the code under test):
 	// adjacent keys share common prefixes of at least two different byte lengths,
 	// so a split at the shortest one leaves groups that need their own prefix.
-	distinct := map[int]bool{}
-	for i := 0; i+1 < n; i++ {
-		distinct[lcpBytes(keys[i:i+2])] = true
+	nested := false
+	if c.Spec != nil && lastNestedKnown && lastNestedFor == *c.Spec {
+		nested = lastNested // the same generated list as in the previous evaluation
+	} else {
+		first := -1
+		for i := 0; i+1 < n && !nested; i++ {
+			l := lcpBytes(keys[i : i+2])
+			if first < 0 {
+				first = l
+			}
+			nested = l != first
+		}
+		if c.Spec != nil {
+			lastNestedFor, lastNested, lastNestedKnown = *c.Spec, nested, true
+		}
 	}
-	if len(distinct) >= 2 {
+	if nested {
 		labels = append(labels, "nested-prefix-lengths")
 	}
-	return n > int(c.MaxSize) && len(distinct) >= 2, labels
+	return n > int(c.MaxSize) && nested, labels
 }
 
+var (
+	lastNestedFor   Spec
+	lastNested      bool
+	lastNestedKnown bool
+)
+
 func genCase(t *rapid.T) Case {
+	if gen.Chance(t, 3, 10, "generated") {
+		return genSpecCase(t)
+	}
 	maxKeys := vk.Pick(60, 2000)
 	if gen.Chance(t, 2, 3, "small") {
 		maxKeys = 20
@@ -291,9 +407,84 @@ func TestGrid(t *testing.T) {
 		}
 	}
 	for _, n := range []int{1<<18 + 7, 70001} { // very large key sets (size thresholds)
-		for _, ms := range []int32{1, 50, 5000} {
+		for _, ms := range []int32{1, 50, 5000, int32(n)} {
 			checker.Run(t, Case{BigN: n, MaxSize: ms, Class: "very-large-key-set"})
 		}
 	}
+	vk.ProcsSweep(func() { // everything in one shard, under every scheduler width
+		checker.Run(t, Case{BigN: 70001, MaxSize: math.MaxInt32 - 3, Class: "very-large-key-set"})
+	})
+	sizeSweeps(t)
 	vk.MarkExhaustive("all subsets of size 1..6 of a 14-key pool x maxSize 1..7")
+}
+
+// between returns a value in (2^k, 2^(k+1)) that is a pure function of (k, i).
+func between(k, i int) int {
+	return 1<<uint(k) + 1 + int(vk.Mix(uint64(k)*977+uint64(i))%uint64(1<<uint(k)-1))
+}
+
+// sizeSweeps: deterministic sweeps over the three size-like quantities of a key list - nesting depth,
+// length of the common prefix, number of keys - at 2^k-1, 2^k, 2^k+1 and two more values in every octave,
+// with content that makes the size matter (the deep prefix is shared, ranges deep down are still larger than
+// maxSize, one shard spans the whole list).
+func sizeSweeps(t *testing.T) {
+	// nesting depth of the recursive split
+	for k := 1; k <= vk.Pick(10, 12); k++ {
+		for i, d := range []int{1<<uint(k) - 1, 1 << uint(k), 1<<uint(k) + 1, between(k, 0), between(k, 1)} {
+			if d < 2 || (vk.ProcsVaried() && d > 130) { // (the GOMAXPROCS process meets long lists in the list-size sweep)
+				continue
+			}
+			pure := Spec{N: d, Seed: uint64(d), Shape: shapeChain, Self: 8, Ext: 1, Fan: 2} // k, kk, kkk, ...
+			for _, ms := range []int{1, 2, 3, d / 2, d - 1} {
+				checker.Run(t, Case{Spec: &pure, MaxSize: int32(max(ms, 1)), Class: "grid-depth"})
+			}
+			comb := Spec{N: d, Seed: uint64(d) + 77, Shape: shapeChain, Self: i % 3 * 3, Ext: 1 + i%3*4, Root: i * 5, Fan: 4}
+			for _, ms := range []int{1, 2, 1 + d/3} {
+				checker.Run(t, Case{Spec: &comb, MaxSize: int32(ms), Class: "grid-depth"})
+			}
+		}
+	}
+	// length of the prefix shared by all keys (the first difference lies right behind it)
+	for k := 3; k <= vk.Pick(16, 20) && !vk.ProcsVaried(); k++ {
+		for i, r := range []int{1<<uint(k) - 1, 1 << uint(k), 1<<uint(k) + 1, between(k, 2)} {
+			for _, n := range []int{1, 2, 7} {
+				sp := Spec{N: n, Seed: uint64(r)*8 + uint64(n), Shape: shapeBalanced, Root: r, Ext: 1 + (i+n)%3*8, Self: (i + n) % 2 * 4, Fan: 3}
+				for _, ms := range []int{1, 2, n} {
+					checker.Run(t, Case{Spec: &sp, MaxSize: int32(ms), Class: "grid-long-prefix"})
+				}
+			}
+		}
+	}
+	// number of keys, with deep prefixes (size thresholds; work split over GOMAXPROCS goroutines)
+	j := 0
+	for k := 4; k <= vk.Pick(13, 16); k++ {
+		for i, n := range []int{1<<uint(k) - 1, 1 << uint(k), 1<<uint(k) + 1, between(k, 3), between(k, 4)} {
+			if !vk.Thorough() && n > 11000 { // quick: 8191, 8192, 8193 and at most one more size above 2^13
+				continue
+			}
+			j++
+			sp := Spec{N: n, Seed: uint64(n) * 31, Shape: 1 + j%3, Root: []int{1, 0, 11, 70, 3}[(i+k)%5], Ext: []int{1, 3, 9, 17}[j%4], Self: j % 5, Fan: []int{256, 7, 40}[j%3]}
+			root := int(math.Sqrt(float64(n)))
+			vk.ProcsSweep(func() {
+				for _, ms := range []int{n, math.MaxInt32 - j, root} {
+					checker.Run(t, Case{Spec: &sp, MaxSize: int32(ms), Class: "grid-list-size"})
+				}
+			})
+			for _, ms := range []int{1, 2, n - 1, n + 1, n / 2, 3 * root} {
+				checker.Run(t, Case{Spec: &sp, MaxSize: int32(ms), Class: "grid-list-size"})
+			}
+		}
+	}
+	// maxSize above 2^15 / 2^16 with ranges that are still too large several levels down
+	for _, n := range []int{70001, vk.Pick(0, 1<<18+5)} {
+		if n == 0 {
+			continue
+		}
+		sp := Spec{N: n, Seed: 4, Shape: shapeSkewed, Root: 2, Ext: 3, Self: 2, Fan: 256}
+		for _, ms := range []int{1<<15 - 1, 1 << 15, 40000, 1<<16 - 1, 1 << 16, n - 1, n} {
+			if ms <= n {
+				checker.Run(t, Case{Spec: &sp, MaxSize: int32(ms), Class: "grid-large-maxsize"})
+			}
+		}
+	}
 }
